@@ -79,3 +79,5 @@ def run_case(case, res):
     res.states.add(res.hash)
     res.sample = {"config": cfg, "steps_done": obs.steps, "rotations": obs.rotations, "lmax_raises": obs.lmax_raises,
                   "trace": obs.trace[:6]}
+
+RULE += (" " + 'Error / benefit values at magnitudes 1e-12..1e9; typed, integer and mixed-scale domains; leading-dimension profile.')
